@@ -43,6 +43,10 @@ def build(ty1, ty2, rows, nother, order, by, order_by=None, having=None):
     pos2 = [i for i, (k, _) in enumerate(items) if k == 'k2'][0] + 1
     if by == 'name':
         pv = ast.PivotBy([ast.Column('p'), ast.Column('q')])
+    elif by == 'name-pos':
+        pv = ast.PivotBy([ast.Column('p'), pos2])
+    elif by == 'pos-name':
+        pv = ast.PivotBy([pos1, ast.Column('q')])
     else:
         pv = ast.PivotBy([pos1, pos2])
     group = ast.GroupBy([ast.Column('p'), ast.Column('q')], having)
@@ -122,7 +126,7 @@ def grid_layer(ctx):
             nother = 1 + (n % 3)
             base = list(range(2 + nother))
             order = rng.shuffle(base)
-            by = 'name' if n % 2 else 'pos'
+            by = ['name', 'pos', 'name-pos', 'pos-name'][n % 4]     # the two references, each by name or by position
             table, sel, plain, c1, c2 = build('str', 'int', rows, nother, order, by)
             SqlCase([table], sel, name='grid').check(ctx, nontrivial=nrows >= 2, meta={'order': order, 'by': by})
             if n % 7 == 0:
@@ -160,7 +164,7 @@ def random_layer(ctx, ncases):
         if rng.chance(1, 5):
             order_by = (order_by or []) + [ast.OrderBy(ast.Function('count', [ast.Column('w')]), ast.Ordering(rng.below(2)))]
             ctx.count('with-order-by-aggregate')
-        table, sel, plain, c1, c2 = build(ty1, ty2, rows, nother, order, rng.choice(['name', 'pos']), order_by, having)
+        table, sel, plain, c1, c2 = build(ty1, ty2, rows, nother, order, rng.choice(['name', 'pos', 'name-pos', 'pos-name']), order_by, having)
         SqlCase([table], sel, name='random').check(ctx, nontrivial=len(rows) >= 2)
         unpivot_oracle(ctx, table, sel, plain, c1, c2)
         if ctx.stop():
